@@ -59,8 +59,8 @@ theorem words_are_documented :
 theorem words_disjoint_and_clean :
     (∀ w ∈ Gen.trueStrings, w ∉ Gen.falseStrings) ∧
     (∀ w ∈ Gen.trueStrings ++ Gen.falseStrings,
-      w ≠ [] ∧ ∀ c ∈ w, isSpace c = false ∧ lowerChar c = c) := by
-  decide
+      w ≠ [] ∧ ∀ c ∈ w, isSpace c = false ∧ lowerChars c = [c] ∧ c.toNat < 128) := by
+  decide +kernel
 
 /-- the transcription of int()'s whitespace (ASCII transform, then C isspace) agrees with the set
     probed from the interpreter, on ASCII and on every `str.isspace` code point -/
@@ -127,17 +127,24 @@ theorem bool_accepts_padded_cased (w w' l r : List Char) (strict : Bool)
   have hclean := (words_disjoint_and_clean.2 w hw).2
   have hns : ∀ c ∈ w', isSpace c = false := by
     intro c hc
-    have hm : lowerChar c ∈ w := by rw [← hcase]; exact List.mem_map.mpr ⟨c, hc, rfl⟩
-    by_cases hup : 65 ≤ c.toNat ∧ c.toNat ≤ 90
-    · have : ∀ n ∈ Gen.spaceCodes, ¬ (65 ≤ n ∧ n ≤ 90) := by decide
-      cases hsp : isSpace c with
-      | false => rfl
-      | true =>
-        have hmem : c.toNat ∈ Gen.spaceCodes := by simpa [isSpace] using hsp
-        exact absurd hup (this _ hmem)
-    · have : lowerChar c = c := by unfold lowerChar; rw [if_neg hup]
-      rw [this] at hm
-      exact (hclean c hm).1
+    cases hsp : isSpace c with
+    | false => rfl
+    | true =>
+      exfalso
+      -- a whitespace character is lowered to itself, so it would be a character of the word
+      have hmem : c.toNat ∈ Gen.spaceCodes := by simpa [isSpace] using hsp
+      have htab : ∀ n ∈ Gen.spaceCodes,
+          Gen.lowerTable.find? (fun e => e.1 == n) = none ∧ ¬ (65 ≤ n ∧ n ≤ 90) := by decide +kernel
+      have hl : lowerChars c = [c] := by
+        rw [lemma_lowerChars_of_none c (htab _ hmem).1]
+        unfold lowerChar; rw [if_neg (htab _ hmem).2]
+      have hcw : c ∈ w := by
+        rw [← hcase]
+        unfold pyLower
+        exact List.mem_flatMap.mpr ⟨c, hc, by rw [hl]; simp⟩
+      have := (hclean c hcw).1
+      rw [hsp] at this
+      exact absurd this (by decide)
   have hkey : boolKey (l ++ w' ++ r) = w := by
     unfold boolKey pyStrip
     rw [lemma_strip_pad isSpace l w' r hl hr hns, hcase]
@@ -184,6 +191,64 @@ example : pyStrip ['O', 'N'] = ['O', 'N'] ∧ isValidBoolstr (.str ['O', 'N']) =
 /-- padded input is where the two differ (the reason for the hypothesis) -/
 example : isValidBoolstr (.str [' ', 'o', 'n']) = .ok false ∧
     boolFromString (.str [' ', 'o', 'n']) true = .ok (.val true) := by decide
+
+/-! ### only ASCII casings of the words are recognised -/
+
+/-- the characters occurring in the words -/
+def wordChars : List Char := (Gen.trueStrings ++ Gen.falseStrings).flatten
+
+theorem lemma_table_not_word :
+    ∀ e ∈ Gen.lowerTable, e.2 ≠ [] ∧ ∀ x ∈ e.2, ¬ (Char.ofNat x ∈ wordChars) := by decide +kernel
+
+/-- a text whose `str.lower()` is a word is an ASCII text, lowered letter by letter -/
+theorem lemma_key_ascii (t : List Char) (h : pyLower t ∈ Gen.trueStrings ++ Gen.falseStrings) :
+    pyLower t = t.map lowerChar ∧ ∀ c ∈ t, c.toNat < 128 := by
+  have hA : ∀ x ∈ pyLower t, x ∈ wordChars := fun x hx => List.mem_flatten.mpr ⟨_, h, hx⟩
+  have e := lemma_pyLower_into (fun x => x ∈ wordChars) lemma_table_not_word t hA
+  refine ⟨e, ?_⟩
+  intro c hc
+  have hm : lowerChar c ∈ pyLower t := by rw [e]; exact List.mem_map.mpr ⟨c, hc, rfl⟩
+  have := ((words_disjoint_and_clean.2 _ h).2 _ hm).2.2
+  unfold lowerChar at this
+  split at this
+  · omega
+  · exact this
+
+/-- is_valid_boolstr accepts exactly the ASCII casings of the words: a string is accepted iff it
+    consists of ASCII characters and, with `A`-`Z` mapped to `a`-`z`, is one of the words.  No
+    non-ASCII look-alike (long s, Kelvin sign, ligatures, fullwidth letters …) is accepted. -/
+theorem boolstr_accepts_only_ascii_casings (s : List Char) :
+    isValidBoolstr (.str s) = .ok true ↔
+      (∀ c ∈ s, c.toNat < 128) ∧ s.map lowerChar ∈ Gen.trueStrings ++ Gen.falseStrings := by
+  rw [boolstr_iff]
+  simp only [Except.ok.injEq, decide_eq_true_eq]
+  constructor
+  · intro h
+    obtain ⟨e, hasc⟩ := lemma_key_ascii s h
+    exact ⟨hasc, e ▸ h⟩
+  · rintro ⟨hasc, h⟩
+    rw [lemma_pyLower_ascii s hasc]
+    exact h
+
+/-- the same for bool_from_string: whenever it returns a boolean of its own for a str, the stripped
+    text is an ASCII casing of a word -/
+theorem bool_recognises_only_ascii_casings (s : List Char) (strict b : Bool)
+    (h : boolFromString (.str s) strict = .ok (.val b)) :
+    (∀ c ∈ pyStrip s, c.toNat < 128) ∧
+      (pyStrip s).map lowerChar ∈ Gen.trueStrings ++ Gen.falseStrings := by
+  have hk : boolKey s ∈ Gen.trueStrings ++ Gen.falseStrings := by
+    cases b
+    · exact List.mem_append.mpr (Or.inr ((bool_false_iff s strict).mp h))
+    · exact List.mem_append.mpr (Or.inl ((bool_true_iff s strict).mp h))
+  obtain ⟨e, hasc⟩ := lemma_key_ascii (pyStrip s) hk
+  exact ⟨hasc, e ▸ hk⟩
+
+/-- the look-alikes of C14-9: `yeſ` (U+017F), `oﬀ` (U+FB00), `oK`-style Kelvin sign are not words -/
+example : isValidBoolstr (.str ['y', 'e', Char.ofNat 0x17f]) = .ok false ∧
+    isValidBoolstr (.str ['o', Char.ofNat 0xfb00]) = .ok false ∧
+    isValidBoolstr (.str ['Y', 'E', 'S']) = .ok true ∧
+    boolFromString (.str ['f', 'a', 'l', Char.ofNat 0x17f, 'e']) true = .error .valueError := by
+  decide +kernel
 
 /-! ### is_int_like -/
 
@@ -387,14 +452,10 @@ theorem uuid_iff_32hex (s : List Char) : isUuidLike (.str s) = true ↔ IsHex32 
     | error e => simp [hu] at h
     | ok n =>
       simp only [hu, beq_iff_eq, hplain] at h
-      constructor
-      · have := congrArg List.length h
-        simpa [pyLower, lemma_hexFixed_length] using this.symm
-      · intro c hc
-        apply lemma_lower_hex
-        have : lowerChar c ∈ pyLower (uuidUndecorate s) := List.mem_map.mpr ⟨c, hc, rfl⟩
-        rw [← h] at this
-        exact lemma_hexFixed_chars _ _ _ this
+      obtain ⟨_, hlen, hhex⟩ := lemma_pyLower_hex (uuidUndecorate s)
+        (fun x hx => lemma_hexFixed_chars 32 n x (by rw [h]; exact hx))
+      refine ⟨?_, hhex⟩
+      rw [← hlen, ← h, lemma_hexFixed_length]
   · rintro ⟨hl, hh⟩
     have hne : uuidUndecorate s ≠ [] := by
       intro e; rw [e] at hl; simp at hl
@@ -493,14 +554,10 @@ theorem uuid_accepts_all_spellings (d : Spelling) (h : List Char) (hh : IsHex32 
 theorem uuid_accepts_every_value (n : Nat) (d : Spelling) (h : List Char)
     (hcase : pyLower h = hexFixed 32 n) : isUuidLike (.str (spell d h)) = true := by
   apply uuid_accepts_all_spellings
-  constructor
-  · have := congrArg List.length hcase
-    simpa [pyLower, lemma_hexFixed_length] using this
-  · intro c hc
-    apply lemma_lower_hex
-    have : lowerChar c ∈ pyLower h := List.mem_map.mpr ⟨c, hc, rfl⟩
-    rw [hcase] at this
-    exact lemma_hexFixed_chars _ _ _ this
+  obtain ⟨_, hlen, hhex⟩ := lemma_pyLower_hex h
+    (fun x hx => lemma_hexFixed_chars 32 n x (by rw [← hcase]; exact hx))
+  refine ⟨?_, hhex⟩
+  rw [← hlen, hcase, lemma_hexFixed_length]
 
 example : isUuidLike (.str (spell .urn (hexFixed 32 0x12345678123456781234567812345678))) = true :=
   uuid_accepts_every_value 0x12345678123456781234567812345678 .urn _ (by decide)
